@@ -197,8 +197,10 @@ Theorem C10_pool_no_get_after_process : forall l1 c l2 p,
   prun pool_init (l1 ++ PProcess c :: l2) = Some p -> ~ In (PGet c) l2.
 Proof. exact pool_no_get_after_process. Qed.
 
-(* The tie's acceptor [simulate] is a run of this very model: its result is a reachable state
-   (so every theorem above applies to it), and it is either still open or completely torn down. *)
+(* The tie's acceptor [simulate] folds [step] over the schedule a recorded trace stands for, SKIPPING labels
+   that are not enabled ([run_lenient]); so only its result is a reachable state (every invariant above
+   applies to it) -- that the trace itself is a run is checked by the driver ([skipped_labels] = 0), not
+   proved.  After the teardown the result is either still open or completely torn down. *)
 Theorem C10_simulate_reachable : forall keep t, reachable false (simulate keep t).
 Proof. exact simulate_reachable. Qed.
 
